@@ -107,6 +107,43 @@ func genC01(c *lp.Ctx) {
 	}
 }
 
+// genC01twoTries: several tries alive in one process: build A, keep it, build B
+// (and C), then look up A's keys again.
+func genC01twoTries(c *lp.Ctx) {
+	n := c.Pick(150, 500)
+	for it := 0; it < n; it++ {
+		var cases []*Case
+		k := 2 + c.Rng.Intn(2)
+		for j := 0; j < k; j++ {
+			flags := ""
+			if c.Rng.Intn(2) == 0 {
+				flags = []string{"-", "nnnn", "fnnn", "nntn"}[c.Rng.Intn(4)] // modes that store step lengths
+			}
+			cs := NewCase(c.Rng, gen.Any(c.Rng, 80), flags, "")
+			c.Case("two|"+cs.Key(), len(cs.Keys) >= 2)
+			if !build(c, cs) {
+				continue
+			}
+			c.Do(fmt.Sprintf("trie.stash %d", j))
+			cases = append(cases, cs)
+		}
+		c.Hit(fmt.Sprintf("history:%d-tries-alive", len(cases)))
+		for j, cs := range cases {
+			if c.Do(fmt.Sprintf("trie.unstash %d", j)) != "ok" {
+				continue
+			}
+			for i, key := range cs.RKeys {
+				q := lp.XS(key)
+				want := cs.valAns(cs.RVals[i])
+				if got := c.Do("trie.get " + q); got != want {
+					c.Violate(lp.Violation{What: "Get on retained key of a trie built before other tries in the same process",
+						Script: []string{cs.Line(), "(other builds)", "trie.get " + q}, Expected: want, Got: got})
+				}
+			}
+		}
+	}
+}
+
 func genC01big(c *lp.Ctx) {
 	bigShapes(c, func(cs *Case) {
 		for i, k := range cs.RKeys {
@@ -125,6 +162,7 @@ func genC01big(c *lp.Ctx) {
 func init() {
 	lp.RegisterGen("C01", genC01)
 	lp.RegisterGen("C01", genC01big)
+	lp.RegisterGen("C01", genC01twoTries)
 }
 
 // bigShapes (thorough tier): a few very large regular tries that reach the
